@@ -268,6 +268,14 @@ func runSpec(sp *execSpec) vx.Result {
 	for _, x := range v.list {
 		r.Violations = append(r.Violations, x)
 	}
+	if dbg := os.Getenv("C18_DEBUG"); dbg != "" && len(r.Violations) > 0 {
+		if f, err := os.OpenFile(dbg, os.O_APPEND|os.O_CREATE|os.O_WRONLY, 0644); err == nil {
+			for _, x := range r.Violations {
+				fmt.Fprintf(f, "=== %s\n    case %s\n    %s\n", x.Fingerprint, sp.Case, strings.ReplaceAll(x.Msg, "\n", "\n    "))
+			}
+			f.Close()
+		}
+	}
 	kinds := map[string]int{}
 	for _, q := range reqs {
 		k := q.Kind
@@ -902,6 +910,12 @@ func TestVerifC18(t *testing.T) {
 	}
 	c.Bounds["schema_files"] = schemas.files
 	gitx.CmdTimeout = 60 * time.Second
+	if c.Replay != "" {
+		// the enumeration (mutation lists, bounds) depends on the tier: replay in the tier the file was written in
+		if rf, err := c.LoadReplay(); err == nil && (rf.Tier == "quick" || rf.Tier == "thorough") {
+			c.Tier = rf.Tier
+		}
+	}
 	parts := buildParts(c)
 	only := os.Getenv("VERIF_ONLY")
 
@@ -931,6 +945,7 @@ func TestVerifC18(t *testing.T) {
 	var vparts []vx.Part
 	clause := map[string]int64{}
 	reqKinds := map[string]int64{}
+	shapes := map[string]bool{}
 	for _, p := range parts {
 		if only != "" && !strings.HasPrefix(p.name, only) {
 			continue
@@ -946,11 +961,16 @@ func TestVerifC18(t *testing.T) {
 				reqKinds[strings.TrimPrefix(k, "requests:")] += n
 			}
 		}
+		for k := range st.NonTrivial {
+			if strings.HasPrefix(k, "shape:") {
+				shapes[strings.TrimPrefix(k, "shape:")] = true
+			}
+		}
 		fmt.Printf("part %-14s executions=%d requests=%d outcomes=%d exhaustive=%v t=%.0fs avg-exec=%dms avg-setup=%dms\n", p.name, st.Executions, st.Counters["requests"], len(st.Outcomes), st.Exhaustive, time.Since(startT).Seconds(),
 			st.Counters["ms:total"]/(st.Executions+1), st.Counters["ms:setup"]/(st.Executions+1))
 		vparts = append(vparts, vx.Part{Scenario: p.name, Stats: st, Exec: func(pp []vx.Point) vx.Result { return vx.SafeRun(run, pp) }})
 	}
-	extra := map[string]interface{}{"oracle_clause_evaluations": clause, "requests_validated_by_kind": reqKinds}
+	extra := map[string]interface{}{"oracle_clause_evaluations": clause, "requests_validated_by_kind": reqKinds, "distinct_request_shapes": keys(shapes)}
 	if len(basesSkipped) > 0 {
 		extra["corruption_bases_skipped"] = basesSkipped
 	}
